@@ -126,6 +126,7 @@ namespace igris
         igris::dlist<timer_head_basic<TimeSpec>,
                      &timer_head_basic<TimeSpec>::lnk>
             timer_list = {};
+        bool executing = false;
 
         // deadline a comes before deadline b. A wrapping (integral) tick
         // counter is compared like check() does it: by the difference,
@@ -175,6 +176,18 @@ namespace igris
         {
             system_lock();
 
+            // exec() called from a callback of this manager: the timer whose
+            // callback is running is still at the head of the list with its
+            // old deadline, the loop would invoke the same callback again for
+            // the same deadline (without end if it calls exec() every time).
+            // The exec() that is running picks up everything that is due.
+            if (executing)
+            {
+                system_unlock();
+                return;
+            }
+            executing = true;
+
             while (!timer_list.empty())
             {
                 auto &tim = timer_list.first();
@@ -198,11 +211,15 @@ namespace igris
                     }
                 }
                 else
+                {
+                    executing = false;
                     return;
+                }
 
                 system_lock();
             }
 
+            executing = false;
             system_unlock();
         }
 
